@@ -235,7 +235,14 @@ fn run_release(k: usize) -> Vec<String> {
     use unsize::{CoerceUnsize, Coercion};
     let names = ["Arc", "last of two Arc clones", "Arc<[T]>", "Arc<dyn Debug> (unsized)", "ThinArc (header)", "OffsetArc", "ArcUnion (second)",
                  "UniqueArc", "Arc<HeaderSlice> (element)", "UniqueArc<HeaderSlice> assumed initialised (element)",
-                 "Arc<T> built by new_uninit / write / assume_init", "UniqueArc<HeaderSlice<_, [MaybeUninit]>> never initialised (header)"];
+                 "Arc<T> built by new_uninit / write / assume_init", "UniqueArc<HeaderSlice<_, [MaybeUninit]>> never initialised (header)",
+                 "the old value inside Arc::make_mut (the other owner left during the clone)",
+                 "the old value inside OffsetArc::make_mut (the other owner left during the clone)",
+                 "the old value inside Arc::make_unique (the other owner left during the clone)",
+                 "the old value inside Arc::unwrap_or_clone (the other owner left during the clone)"];
+    if k >= 13 {
+        return run_release_in_cow(k, &format!("last release of {} with a panicking payload destructor", names[k - 1]));
+    }
     let tag = format!("last release of {} with a panicking payload destructor", names[(k - 1) % names.len()]);
     alloc::reset();
     ev::LOG.clear();
@@ -278,6 +285,124 @@ fn run_release(k: usize) -> Vec<String> {
         Ok(()) => errs.push(format!("[panicked] {}: the destructor's panic was swallowed", tag)),
     }
     errs.extend(account_release(&tag, 1, 1));
+    alloc::reset();
+    errs
+}
+
+/// payload whose Clone lets the other owner go and whose original panics in its destructor
+struct Armed {
+    a: A,
+    armed: bool,
+}
+thread_local! {
+    static SIBLING: std::cell::RefCell<Option<Box<dyn std::any::Any>>> = const { std::cell::RefCell::new(None) };
+}
+impl Clone for Armed {
+    fn clone(&self) -> Armed {
+        // the other owner of the value being cloned goes away now
+        let s = SIBLING.with(|s| s.borrow_mut().take());
+        drop(s);
+        Armed { a: self.a.clone(), armed: false }
+    }
+}
+impl Drop for Armed {
+    fn drop(&mut self) {
+        if self.armed && !std::thread::panicking() {
+            std::panic::panic_any(DropPanic);
+        }
+    }
+}
+
+/// make_mut / make_unique / unwrap_or_clone on a shared handle whose other owner leaves during the clone: the call
+/// releases the old value as its last owner; the old value's destructor panics. The panic propagates, the old value
+/// is destroyed once and its block freed, and the handle that survives the call is a valid sole owner of the copy.
+fn run_release_in_cow(k: usize, tag: &str) -> Vec<String> {
+    use triomphe::OffsetArc;
+    let mut errs = vec![];
+    alloc::reset();
+    ev::LOG.clear();
+    alloc::track(true);
+    let orig = Arc::new(Armed { a: A::mk(1), armed: true });
+    let old_block = orig.heap_ptr() as usize;
+    let old_id = orig.a.see().id;
+    SIBLING.with(|s| *s.borrow_mut() = Some(Box::new(orig.clone())));
+    // what survives the call: (block it points at, how to release it)
+    let mut arc_h: Option<Arc<Armed>> = None;
+    let mut off_h: Option<OffsetArc<Armed>> = None;
+    if k == 14 {
+        off_h = Some(Arc::into_raw_offset(orig));
+    } else {
+        arc_h = Some(orig);
+    }
+    let r = catch_unwind(AssertUnwindSafe(|| match k {
+        13 => {
+            let _ = Arc::make_mut(arc_h.as_mut().unwrap());
+        }
+        14 => {
+            let _ = off_h.as_mut().unwrap().make_mut();
+        }
+        15 => {
+            let _ = Arc::make_unique(arc_h.as_mut().unwrap());
+        }
+        _ => {
+            let v = Arc::unwrap_or_clone(arc_h.take().unwrap());
+            drop(v);
+        }
+    }));
+    alloc::track(false);
+    match r {
+        Err(p) if p.is::<DropPanic>() => {}
+        Err(_) => errs.push(format!("[panicked] {}: a different panic came out", tag)),
+        Ok(()) => errs.push(format!("[panicked] {}: the destructor's panic was swallowed", tag)),
+    }
+    SIBLING.with(|s| {
+        if s.borrow().is_some() {
+            errs.push(format!("[harness] {}: the clone did not run", tag));
+        }
+    });
+    // the surviving handle
+    let block = arc_h.as_ref().map(|a| a.heap_ptr() as usize).or_else(|| off_h.as_ref().map(|o| o.with_arc(|a| a.heap_ptr() as usize)));
+    if let Some(b) = block {
+        let live = alloc::lookup(b).map(|r| r.live).unwrap_or(false);
+        if !live || b == old_block {
+            errs.push(format!("[poison] {}: the handle that survives the call points at {} block, which has been released: it must own the fresh copy", tag,
+                              if b == old_block { "the old" } else { "a" }));
+            // do not touch it again
+            std::mem::forget(arc_h.take());
+            std::mem::forget(off_h.take());
+        } else {
+            let (count, ok) = match (&arc_h, &off_h) {
+                (Some(a), _) => (Arc::count(a), a.a.see().ok && !a.armed),
+                (_, Some(o)) => (OffsetArc::strong_count(o), o.a.see().ok && !o.armed),
+                _ => (1, true),
+            };
+            if count != 1 || !ok {
+                errs.push(format!("[count] {}: the handle that survives the call reports count {} (intact copy: {}); it is the sole owner of the fresh copy", tag, count, ok));
+            }
+            alloc::track(true);
+            drop(arc_h.take());
+            drop(off_h.take());
+            alloc::track(false);
+        }
+    }
+    let mut old_drops = 0;
+    for e in ev::drain() {
+        match e {
+            Ev::Drop { id, .. } if id == old_id => old_drops += 1,
+            Ev::BadDrop { .. } => errs.push(format!("[baddrop] {}: a destructor ran on something that is not a live object", tag)),
+            Ev::Dealloc { status, size, align, rsize, ralign, .. } if status != 0 => errs.push(format!(
+                "[layout] {}: block requested as (size {}, align {}) released as (size {}, align {}), status {}", tag, rsize, ralign, size, align, status)),
+            _ => {}
+        }
+    }
+    if old_drops != 1 {
+        errs.push(format!("[drops] {}: the old value was destroyed {} time(s)", tag, old_drops));
+    }
+    for rec in alloc::table() {
+        if rec.size < 200 && (rec.live || rec.frees != 1) {
+            errs.push(format!("[leak] {}: a block of {} bytes was released {} time(s){}", tag, rec.size, rec.frees, if rec.live { " and is still allocated" } else { "" }));
+        }
+    }
     alloc::reset();
     errs
 }
